@@ -402,12 +402,25 @@ func genSecApi(g *Gen, w *bufio.Writer) {
 		}
 		// long payloads, around every power of two up to 8 KiB (64 KiB in thorough) and with every residue modulo 4: block /
 		// chunk boundaries of an implementation that produces its keystream piecewise
-		top := 13
+		top := 14
 		if g.Tier == "thorough" {
 			top = 16
 		}
+		// messages that end or begin with a run of zero octets, all-zero messages (word-wise skipping of "empty" input)
+		for z := 1; z <= 17; z++ {
+			for _, lead := range []int{0, 1, 5, 8} {
+				d := append(g.Bytes(lead), make([]byte, z)...)
+				fmt.Fprintf(w, "nasmac %d %s %d %d %d %s\n", alg, key(), uint32(g.U64()), g.Intn(32), g.Intn(2), hexs(d))
+				fmt.Fprintf(w, "nasenc %d %s %d %d %d %s\n", alg, key(), uint32(g.U64()), g.Intn(32), g.Intn(2), hexs(d))
+				e := append(make([]byte, z), g.Bytes(lead)...)
+				fmt.Fprintf(w, "nasmac %d %s %d %d %d %s\n", alg, key(), uint32(g.U64()), g.Intn(32), g.Intn(2), hexs(e))
+			}
+		}
 		for e := 7; e <= top; e++ {
 			for _, dl := range []int{-3, -1, 0, 1, 2, 5} {
+				if e >= 14 && dl != 1 {
+					continue
+				}
 				n := 1<<uint(e) + dl
 				fmt.Fprintf(w, "nasenc %d %s %d %d %d %s\n", alg, key(), uint32(g.U64()), g.Intn(32), g.Intn(2), hexs(g.Bytes(n)))
 				if dl == 1 || dl == 0 {
@@ -745,6 +758,16 @@ func genSecSpec(g *Gen, w *bufio.Writer) {
 			fmt.Fprintf(w, "snasmac %d %s %d %d %d %s\n", alg, key(), uint32(g.U64()), g.Intn(32), g.Intn(2), hexs(data))
 			fmt.Fprintf(w, "snia %d %s %d %d %d %s %d\n", alg, key(), uint32(g.U64()), g.Intn(32), g.Intn(2), hexs(data), len(data)*8)
 			fmt.Fprintf(w, "snasenc %d %s %d %d %d %s\n", alg, key(), uint32(g.U64()), g.Intn(32), g.Intn(2), hexs(data))
+		}
+	}
+	for alg := 1; alg <= 3; alg++ {
+		for z := 1; z <= 17; z++ {
+			for _, lead := range []int{0, 3, 8, 12} {
+				d := append(g.Bytes(lead), make([]byte, z)...)
+				fmt.Fprintf(w, "snasmac %d %s %d %d %d %s\n", alg, key(), uint32(g.U64()), g.Intn(32), g.Intn(2), hexs(d))
+				d2 := append(append(g.Bytes(lead), make([]byte, z)...), g.Bytes(1+g.Intn(9))...)
+				fmt.Fprintf(w, "snasmac %d %s %d %d %d %s\n", alg, key(), uint32(g.U64()), g.Intn(32), g.Intn(2), hexs(d2))
+			}
 		}
 	}
 	// the standard functions are defined on the first LENGTH bits only: octets behind ceil(LENGTH/8) and, for the functions
